@@ -89,7 +89,7 @@ func msgOf(e ev) smf.Message {
 
 // expected computes the bar model.
 func expected(s song) (want []placed, end int64, perTrack map[int]bool) {
-	t32 := int64(s.res / 8)
+	t32 := int64(smf.MetricTicks(s.res).Ticks32th())
 	cur := sig{4, 4}
 	prev := sig{4, 4}
 	var start int64
@@ -415,7 +415,7 @@ func imported(s song, f1 smf.SMF) {
 // exports: each export must follow the bar model of the song as it is now -
 // nothing may be remembered from an earlier export.
 func edited(s song, sq *sequencer.Song) {
-	for edit := 0; edit < 6; edit++ {
+	for edit := 0; edit < 7; edit++ {
 		what := ""
 		bars := sq.Bars()
 		switch edit {
@@ -451,6 +451,17 @@ func edited(s song, sq *sequencer.Song) {
 			}
 			bars[0].Number, bars[1].Number = bars[1].Number, bars[0].Number
 			what = "bar-numbers-exchanged"
+		case 6:
+			// numbers that keep the order but are not 0..n-1: counted from 1, with a hole
+			if len(bars) < 2 {
+				continue
+			}
+			sorted := append(sequencer.Bars(nil), bars...)
+			sort.SliceStable(sorted, func(i, j int) bool { return sorted[i].Number < sorted[j].Number })
+			for i, b := range sorted {
+				b.Number = uint(1 + 2*i)
+			}
+			what = "bar-numbers-sparse"
 		case 0:
 			if len(bars) < 2 {
 				continue
@@ -562,7 +573,9 @@ func allSigs() []sig {
 
 func barLen(sg sig) int { return int(sg.n) * 32 / int(sg.d) }
 
-var resolutions = []uint16{960, 8, 96, 32760}
+// 100 and 90 are not multiples of 8: the 32nd-note grid is then the library's
+// rounded Ticks32th(), for bars as well as for events
+var resolutions = []uint16{960, 8, 96, 32760, 100, 90}
 
 // signatureSpace: every signature in every bar position, one note per bar
 // lasting to the end of its bar.
